@@ -1,6 +1,7 @@
 import UncModel.Gen.ExitSites
 import UncModel.Gen.TokLoops
 import UncModel.TokCtx
+import UncModel.Lemmas.WidthLemmas
 /-!
 # C06 — clean termination: the part an executable model can carry
 
@@ -138,5 +139,53 @@ theorem C06_pawn_pattern_witness :
 
 example : (scanWhile isDecC 4 { data := [49, 50, 59], idx := 0 }).map (·.idx) = some 2 := by decide
 example : Gen.tokLoops.length > 50 := by decide +kernel
+
+/-! ### the code_width loop of `uncrustify_file()` ends -/
+
+
+/-- **the code_width loop is bounded**: whatever `split_line()` asks for in whatever iteration, the loop body runs at most
+    (number of gaps without a line break + number of chunks still flagged as one-liner) + 1 times -/
+theorem C06_width_loop_bounded (req : Nat → List Bool → List (List Nat)) (g : List Bool) (k : Nat) :
+    ∃ n g', Width.loop Width.passFixed req (Width.free g + 1) k g = some (n, g') ∧ n ≤ k + Width.free g + 1 := by
+  generalize hm : Width.free g = m
+  induction m using Nat.strongRecOn generalizing g k with
+  | _ m ih =>
+    simp only [Width.loop]
+    split
+    · exact ⟨k + 1, _, rfl, by omega⟩
+    · rename_i hne
+      have hf := Width.passFixed_free g (req k g)
+      have hlt : Width.free (Width.passFixed g (req k g)).1 < m := by omega
+      obtain ⟨n, g', h1, h2⟩ := ih _ hlt (Width.passFixed g (req k g)).1 (k + 1) rfl
+      have hfuel : ∀ (f1 f2 : Nat) (kk : Nat) (gg : List Bool) (r : Nat × List Bool),
+          f1 ≤ f2 → Width.loop Width.passFixed req f1 kk gg = some r → Width.loop Width.passFixed req f2 kk gg = some r := by
+        intro f1
+        induction f1 with
+        | zero => intro f2 kk gg r _ h; simp [Width.loop] at h
+        | succ f1 ihf =>
+          intro f2 kk gg r hle h
+          cases f2 with
+          | zero => omega
+          | succ f2 =>
+            simp only [Width.loop] at h ⊢
+            split
+            · rename_i h0; simp only [h0, if_true] at h; exact h
+            · rename_i h0; simp only [h0, if_false] at h; exact ihf f2 _ _ r (by omega) h
+      exact ⟨n, g', hfuel _ _ _ _ _ (by omega) h1, by omega⟩
+
+/-- before fix b70bece: one gap that has its break in front of a virtual brace, asked for again in every iteration (the token behind
+    it lies beyond code_width and cannot be moved): a change is counted every time, the state never changes, the loop never ends -/
+theorem C06_width_loop_old_diverges (fuel k : Nat) :
+    Width.loop (Width.passOld (fun _ => true)) (fun _ _ => [[0]]) fuel k [true] = none := by
+  induction fuel generalizing k with
+  | zero => rfl
+  | succ f ih =>
+    simp only [Width.loop, Width.passOld, Width.effective, Width.used, List.any_cons, List.any_nil]
+    simpa using ih (k + 1)
+
+/-- the same requests end the fixed loop after one iteration; a loop that uses up one slot per iteration runs `free + 1` times -/
+example : Width.loop Width.passFixed (fun _ _ => [[0]]) 2 0 [true] = some (1, [true]) := by decide
+example : Width.loop Width.passFixed (fun k _ => [[2 * k]]) 4 0 [false, true, false] = some (3, [true, true, true]) := by decide
+example : Width.loop Width.passFixed (fun _ _ => [[0, 2], [0]]) 4 0 [false, true, false] = some (2, [true, true, true]) := by decide
 
 end Unc
